@@ -13,7 +13,7 @@ CHECKS = {
     'C07': {
         'text': 'Condition-variable discipline on both queue classes, on every path of every instantiation: predicate-form waits '
                 'under queueListMutex; the wait predicate formula is equivalent to what the property states (truth table over its atoms); '
-                'every write that can enable the predicate is made under the waiters\' mutex and followed by notify; '
+                'every write that can enable the predicate is made under the waiters\' mutex and followed by notify (a re-test may skip the notify only on state read after the write); '
                 'DisableQueueNotify ctor/dtor balanced, increment/decrement only, and sole writers; every queue constructor starts queueNotifyCounter at a constant zero; the silent put-back of processIf/processUntil lies inside an in-dispatch guard entered before the take, and that counter (read by the wait predicate) is written only by its RAII guard. A violation of any clause yields a schedule with a lost wake-up.',
         'note': COMMON_NOTE + 'Not decided: liveness under fair scheduling, notify_one vs many waiters, timing of waitFor.',
         'technique': 'lockset + dominance over clang CFG, predicate formula extraction with truth-table implication, call-graph notify-after rule',
@@ -52,7 +52,7 @@ CHECKS['C04'] = {
             'keys/arguments and const-ref/by-value getEvent policies; (b) listener lists are invoked only by directDispatch, on the list returned by '
             'the lookup of its own event parameter, with its own arguments in order; dispatch passes getEvent(own arguments) and the own arguments; '
             'the lookup searches the given key under listenerMutex; append/prepend/insert/removeListener perform exactly the matching list operation; removeListener/ownsHandle/hasAnyListener/forEach/forEachIf apply the one list operation to the looked-up list object itself and answer like an empty list when the event has none; '
-            'the default getEvent policy moves from none of its arguments; (c) static_assert and compile-fail witnesses for SelectGetEvent/SelectMap/argument-passing modes under g++ and clang++.',
+            'the default getEvent policy moves from none of its arguments; (c) getEvent detection agrees with callability over a family of parameter and argument kinds (independent detector); static_assert and compile-fail witnesses for SelectGetEvent/SelectMap/argument-passing modes under g++ and clang++.',
     'note': COMMON_NOTE + 'Not decided: equality/hash semantics of user key types, argument values.',
     'technique': 'use-after-move analysis incl. unsequenced operands (AST LCA + CFG reachability), def-use funnel rules, compile-time witnesses',
 }
@@ -85,7 +85,7 @@ CHECKS['C09'] = {
     'technique': 'call-graph effect summaries (may-allocate / may-run-user-code), commit-point reachability over clang CFG, noexcept effect rule',
 }
 CHECKS['C14'] = {
-    'text': 'First-match prototype selection compared with an independent standard-traits oracle over generated families (1600 quick / 11600 thorough '
+    'text': 'Client programs invoking/dispatching/enqueuing with lvalue, rvalue and const arguments build and select the listed prototype (witness/s_heter_calls.cpp); first-match prototype selection compared with an independent standard-traits oracle over generated families (1600 quick / 11600 thorough '
             'static_asserts, g++ and clang++) plus compile-fail witnesses; in doProcessIf the typed view of a slot is dominated by the tag test for the '
             'very PrototypeInfo whose ArgsTuple it uses and the slot is never copied out; doEnqueue stores type, tag and dispatcher of one PrototypeInfo '
             'and doDispatchItem casts to that type; every placement-new fits its buffer (layout facts); handle index and list slot agree; '
@@ -98,7 +98,7 @@ CHECKS['C15'] = {
     'text': 'Typestate of ScopedRemover (both specialisations) on every path: reset() dominates every overwrite of the record or target outside '
             'constructors; the destructor resets on every path; reset walks the whole record calling the target\'s remove, then clears; each add function '
             'records the handle returned by the matching add call under the record mutex on every normal path and returns it; remove erases the record '
-            'first and detaches only what was recorded; records leave itemList only after their listeners were detached (a throwing removal must not orphan the rest); remove searches and erases the record inside one critical section; the target list\'s add operations return a handle to the node they linked (pointer-program evaluation on every list shape up to length 3); move construction and swap transfer/exchange both fields, swap unconditionally.',
+            'first and detaches only what was recorded, reporting the target\'s own result; records leave itemList only after their listeners were detached (a throwing removal must not orphan the rest); remove searches and erases the record inside one critical section; the target list\'s add operations return a handle to the node they linked (pointer-program evaluation on every list shape up to length 3); move construction and swap transfer/exchange both fields, swap unconditionally.',
     'note': COMMON_NOTE + 'Not decided: histories as such (follow from the per-method invariant recorded >= attached-through-me).',
     'technique': 'dominance/post-dominance rules over clang CFG, def-use of the returned handle, field-completeness from class facts',
 }
@@ -108,7 +108,7 @@ CHECKS['C05'] = {
             'function of both queues, with helpers that receive slot lists interpreted at the call site: every get/clear/set meets the protocol, '
             'only FULL slots re-enter queueList and only EMPTY ones are recycled, `return true` needs a certainly consumed slot; positional rules '
             '(enqueue at end, take at begin, put-back at begin); no FULL slot dies with a local list on a normal path (an event neither dispatched, taken, cleared nor handed back); single take site outside loops, never after user code, guarded by nothing but non-emptiness, into a list local to the call; queued dispatch passes '
-            'the slot\'s own event and stored arguments in index order; stored-by-value witness; no use-after-move on enqueue/take.',
+            'the slot\'s own event and stored arguments in index order (index sequences 0..9 and the step N -> N+1 up to 24 by static_assert); stored-by-value witness; no use-after-move on enqueue/take.',
     'note': COMMON_NOTE + 'Not decided: FIFO across arbitrary histories beyond the positional invariants; argument values. The interpretation joins paths (path-insensitive except for emptiness/cursor tests).',
     'technique': 'typestate abstract interpretation over clang CFG (slot states, list contents with cardinality, cursor split), dominance rules, use-after-move',
 }
@@ -116,7 +116,7 @@ CHECKS['C12'] = {
     'text': 'Gate dominance (listener invocation only on the true edge of the mixin chain, evaluated before lookup) in both dispatchers and the '
             'heterogeneous doDispatch; mixin chain extracted as a conjunction in list order; filters and listeners receive the same parameter objects '
             '(lvalue references, no copy); mixinBeforeDispatch formula equals the forEachIf result with lvalue arguments; both operator() variants call '
-            'canContinueInvoking after every callback with the same parameters and stop on false; the hook invoked at each level of the mixin chain is that level\'s own (two known findings, K3: an inherited filter hook runs twice); ConditionalFunctor and ArgumentAdapter shapes, by-value storage of what they wrap, adapter casts (a converted shared_ptr shares ownership).',
+            'canContinueInvoking after every callback with the same parameters and stop on false; the visitor receives the stored filter by reference; at a filter mixin\'s level the hook overload is the one selected; the hook invoked at each level of the mixin chain is that level\'s own (two known findings, K3: an inherited filter hook runs twice); ConditionalFunctor and ArgumentAdapter shapes, by-value storage of what they wrap, adapter casts (a converted shared_ptr shares ownership).',
     'note': COMMON_NOTE + 'Not decided: what filters do to values, conversion semantics of user types; "removed filters never run again" is C01/C02 on the filter list.',
     'technique': 'dominance over clang CFG, boolean formula extraction with truth-table equivalence, def-use identity of argument objects',
 }
@@ -139,7 +139,7 @@ CHECKS['C16'] = {
 CHECKS['C18'] = {
     'text': 'Extracted formulas of AnyId operator==, operator< (compareEqual/compareLessThan overload selected per storage inlined) evaluated over all 13 '
             'weak orderings of digests x 13 of stored values (or no value comparison) of three ids: equivalence, strict weak order, incomparable <=> equal, '
-            'equal => same digest, value/empty storage clauses (any further relation the operators consult, e.g. a storage\'s type(), is enumerated as a weak ordering of its own); digests reach the comparisons without a value-changing conversion; std::hash reads only the digest and hashes its value (not its object representation); no constructor, the default one included, leaves the digest indeterminate; the converting constructor does not move from the value between digesting and storing it (by-value digester witness); hashed map selection witness. Exhaustive over orderings.',
+            'equal => same digest, value/empty storage clauses (compareEqual/compareLessThan are the Storage\'s own operator or a constant; any further relation the operators consult, e.g. a storage\'s type(), is enumerated as a weak ordering of its own); digests reach the comparisons without a value-changing conversion; std::hash reads only the digest and hashes its value (not its object representation); no constructor, the default one included, leaves the digest indeterminate; the converting constructor does not move from the value between digesting and storing it (by-value digester witness); hashed map selection witness. Exhaustive over orderings.',
     'note': COMMON_NOTE + 'Assumes the digester is a function and the stored type\'s ==/< are an equivalence / strict weak order consistent with each other.',
     'technique': 'boolean formula extraction with inlining, exhaustive enumeration of orderings (finite since values are touched only through comparisons)',
 }
